@@ -95,6 +95,7 @@ func (c *Case) SchedOptions(keepLog bool) sim.Options {
 		PreemptNum: int(c.Knob("preempt_num", 1)),
 		PreemptDen: int(c.Knob("preempt_den", 1)),
 		MaxFree:    int(c.Knob("max_free", 0)),
+		Tick:       time.Duration(c.Knob("tick_ns", 0)),
 		KeepLog:    keepLog,
 	}
 	if c.Sched != nil {
@@ -148,6 +149,24 @@ func (o *Outcome) FromSched(r sim.Result) {
 	o.SimTime = r.SimTime
 	o.Choices = r.Choices
 	o.Log = append(o.Log, r.Log...)
+	if r.Fatal != "" {
+		// class = message + first repo frame of the offending call
+		msg := r.Fatal
+		if i := strings.IndexByte(msg, '\n'); i >= 0 {
+			msg = msg[:i]
+		}
+		where := ""
+		for _, line := range strings.Split(r.Fatal, "\n") {
+			if strings.HasPrefix(line, "github.com/tucats/ego/") && !strings.Contains(line, "/verifsim/") {
+				where = strings.TrimPrefix(line, "github.com/tucats/ego/internal/")
+				if i := strings.LastIndexByte(where, '('); i > 0 {
+					where = where[:i]
+				}
+				break
+			}
+		}
+		o.Fail("fatal/"+strings.ReplaceAll(msg, " ", "-")+"@"+where, "the process would have died with an unrecoverable Go fatal error: %s", r.Fatal)
+	}
 	if r.Deadlock != "" {
 		o.Fail("deadlock", "%s", r.Deadlock)
 	}
@@ -237,6 +256,7 @@ type Summary struct {
 	Violations   []*Case          `json:"violations,omitempty"`
 	Samples      []*Case          `json:"samples,omitempty"`
 	HarnessError string           `json:"harness_error,omitempty"`
+	Next         int              `json:"next,omitempty"` // >0: batch stopped early (tainted process); continue from this index
 	SeedHash     map[string]string `json:"seed_hash,omitempty"` // determinism self-test
 }
 
@@ -277,9 +297,18 @@ func Main(t *testing.T, e Engine) {
 		os.Rename(out+".tmp", out)
 	}
 	// seed-independent warm-up: first execution in a process differs (lazy initialisation)
-	warm := e.Generate(0x5EED0FF, tier)
-	warm.SchedSeed = 1
-	execute(e, t, warm, false)
+	// (several fixed cases, so that process-wide one-time state -- lazily built tables, a root
+	// symbol table that becomes shared for good, caches of compiled library packages -- has
+	// reached its steady state before any counted run, whatever its position in the process)
+	nwarm := 4
+	if w, ok := e.(interface{ WarmupRuns() int }); ok {
+		nwarm = w.WarmupRuns()
+	}
+	for i := 0; i < nwarm; i++ {
+		warm := e.Generate(0x5EED0FF+uint64(i)*7919, tier)
+		warm.SchedSeed = uint64(i + 1)
+		execute(e, t, warm, false)
+	}
 
 	switch mode {
 	case "batch", "hashes":
@@ -351,6 +380,13 @@ func Main(t *testing.T, e Engine) {
 				sc.Note = fmt.Sprintf("hash=%016x steps=%d probes=%v", o.Hash, o.Steps, o.Probes)
 				s.Samples = append(s.Samples, sc)
 			}
+			if strings.HasPrefix(o.Violation, "fatal/") || o.Violation == "deadlock" {
+				// tasks of that run were abandoned wherever they stood, possibly holding
+				// package-level locks of the repo: this process is tainted. Stop here; the
+				// driver continues the batch in a fresh process from index Next.
+				s.Next = i + 1
+				break
+			}
 		}
 		s.WallNS = int64(time.Since(t0))
 		write(s)
@@ -365,6 +401,11 @@ func Main(t *testing.T, e Engine) {
 		write(map[string]any{"race_enabled": sim.RaceEnabled})
 	case "trace": // debugging aid: full log of the run generated from one run seed
 		seed, _ := strconv.ParseUint(os.Getenv("VERIF_RUNSEED"), 10, 64)
+		// optional prelude: other runs executed first in this process (to chase state that leaks between runs)
+		base, _ := strconv.ParseUint(os.Getenv("VERIF_BASESEED"), 10, 64)
+		for i := envInt("VERIF_FROM", 0); i < envInt("VERIF_FROM", 0)+envInt("VERIF_COUNT", 0); i++ {
+			execute(e, t, e.Generate(RunSeed(base, i), tier), false)
+		}
 		c := e.Generate(seed, tier)
 		o := execute(e, t, c, true)
 		write(map[string]any{"case": c, "outcome": o})
